@@ -233,6 +233,11 @@ func run(ci any, r *mon.Rec) {
 	L := len(reply)
 	E := req.ExpectedResponseLength()
 	opt := clientx.Options{ReadTimeout: rtOf(c.Client), Flusher: rng.Intn(2) == 0}
+	if c.Seed%2 == 0 {
+		// the caller's context carries a deadline far beyond the client's own read timeout: the client timeout still
+		// bounds the call and is still reported as the client's retryable error
+		opt.CtxDeadline = 25 * rtOf(c.Client)
+	}
 	switch c.Kind {
 	case "prefix-faults":
 		ps := map[int]bool{}
